@@ -104,7 +104,8 @@ def build(repo="/repo", san=False, quiet=True):
         sys.stderr.write("BUILD FAILED\n" + "\n".join(errs)[:8000] + "\n")
         raise SystemExit(3)
     # driver
-    drv_src = os.path.join(VERIF, "harness", "mdriver.cc")
+    # (VERIF_HARNESS_SRC: try out an edited driver without touching the one the checks use)
+    drv_src = os.environ.get("VERIF_HARNESS_SRC") or os.path.join(VERIF, "harness", "mdriver.cc")
     dkey = sha(fl, hd, open(drv_src, "rb").read(), *sorted(objs))
     os.makedirs(os.path.join(CACHE, "bin"), exist_ok=True)
     exe = os.path.join(CACHE, "bin", "mdriver-" + dkey[:24])
